@@ -809,6 +809,23 @@ def execute(node, case, rec, opts):
         if not same_view(v0, vr):
             raise Violation("determinism", "second_run_differs", {"source": src, "diff": diff_view(v0, vr)})
 
+    # ---------------------------------------------------------------- G: a machine stopped by a fault stays where it is
+    if err0 != 0:
+        # (further step()/resume() calls report the fault again and execute nothing; begin() starts over)
+        try:
+            for _ in range(3):
+                node.fm_do(h0, node.FM_STEP, 1)
+            node.fm_do(h0, node.FM_RESUME)
+            node.fm_do(h0, node.FM_STEP, 2)
+        except NodeError as e:
+            raise Violation("robustness", "exception_from_step", {"error": [e.cls, e.msg[:300]]})
+        stg = node.fm_state(h0)
+        moved = {k: [st0[k], stg[k]] for k in ("stack", "vars", "outs", "pos") if st0[k] != stg[k]}
+        if moved:
+            raise Violation("schedule_independence", "execution_continued_after_a_fault",
+                            {"source": src, "error": fm.ERR[err0], "changed": moved})
+        rec.probe("faulted_machine_stays_put")
+
     # ---------------------------------------------------------------- calls at quiescent points (model only)
     if case["calls"] and mview is not None and err0 == 0:
         for word in case["calls"]:
@@ -1226,7 +1243,8 @@ RULE = ("one run = seeded grammar-based program (AST, <= forth_max_words words) 
         "sequence of the program, schedule shape with step-burst classes, machine width, configuration class); "
         "non-trivial = at least 5 program words or at least one fault kind fired")
 REQUIRED_PROBES = {"quick": ["program_paused", "schedules_compared", "calls_compared", "compile_error_reported",
-                             "exhaustive_segmentation_sweeps", "calls_at_pauses_compared", "not_a_word_refused"],
+                             "exhaustive_segmentation_sweeps", "calls_at_pauses_compared", "not_a_word_refused",
+                             "faulted_machine_stays_put"],
                    "thorough": ["program_paused", "schedules_compared", "calls_compared", "compile_error_reported",
                                 "exhaustive_segmentation_sweeps",
                                 "mutated_source_compiled"]}
